@@ -250,6 +250,11 @@ STRENGTHENED5 = {
  "C20/a": "C20 and C10 missed it; see DESIGN.md (oversized ingress-triggered reply while fragments are pending)",
 }
 
+NEEDS6 = {
+}
+STRENGTHENED6 = {
+}
+
 def next_letter(prop, used):
     for c in "abcdefghijklmnopqrstuvwxyz":
         if f"{prop}-{c}" not in used:
@@ -265,6 +270,8 @@ def main():
         NEEDS, STRENGTHENED = NEEDS4, STRENGTHENED4
     if rnd == 5:
         NEEDS, STRENGTHENED = NEEDS5, STRENGTHENED5
+    if rnd == 6:
+        NEEDS, STRENGTHENED = NEEDS6, STRENGTHENED6
     used = {os.path.basename(d) for d in glob.glob('/verif/seeded/*')}
     # seeds already stored by this script (origin_path recorded) are updated in place
     have = {}
